@@ -462,7 +462,7 @@ type subExpect struct {
 
 type subCall struct {
 	filters []string
-	how     string // same, missing, extra, replaced, surplus
+	how     string // same, missing, repeated, extra, replaced, surplus
 	quit    string
 }
 
@@ -492,7 +492,20 @@ next:
 	return rest
 }
 
+func dedupe(l []string) []string {
+	seen := map[string]bool{}
+	var out []string
+	for _, s := range l {
+		if !seen[s] {
+			seen[s] = true
+			out = append(out, s)
+		}
+	}
+	return out
+}
+
 func sameSet(a, b []string) bool {
+	a, b = dedupe(a), dedupe(b)
 	if len(a) != len(b) {
 		return false
 	}
@@ -532,7 +545,7 @@ func TestC20MockSubscribe(t *testing.T) {
 			w := want[i].topics
 			hows := []string{"same", "same", "same", "same", "same"}
 			if len(w) >= 2 {
-				hows = append(hows, "missing")
+				hows = append(hows, "missing", "repeated")
 			}
 			if len(w) < len(c20Filters) {
 				hows = append(hows, "extra")
@@ -555,6 +568,17 @@ func TestC20MockSubscribe(t *testing.T) {
 						l = append(l, f)
 					}
 				}
+				c.filters = permuted(rt, l, "callOrder")
+			case "repeated":
+				// a wanted filter given twice in place of another wanted one:
+				// same number of arguments, yet a different filter set
+				l := append([]string(nil), w...)
+				at := rapid.IntRange(0, len(l)-1).Draw(rt, "repeatAt")
+				from := rapid.IntRange(0, len(l)-2).Draw(rt, "repeatFrom")
+				if from >= at {
+					from++
+				}
+				l[at] = l[from]
 				c.filters = permuted(rt, l, "callOrder")
 			case "extra":
 				l := append(append([]string(nil), w...), rapid.SampledFrom(notIn(w)).Draw(rt, "extraFilter"))
